@@ -355,7 +355,7 @@ func (s *Service) dispatch(response map[string]map[string]any, client *ClientSer
 			logger.Debug(s.clients)
 			for _, c := range s.clients {
 
-				if channel, ok := c.Responses[RandID]; ok {
+				if channel, ok := c.responseTake(RandID); ok {
 
 					if val, ok := response["Body"]["Response"]; ok {
 						var (
@@ -681,7 +681,7 @@ func (s *Service) dispatch(response map[string]map[string]any, client *ClientSer
 				return
 			}
 
-			if channel, ok := client.Responses[RequestID]; ok {
+			if channel, ok := client.responseTake(RequestID); ok {
 				channel <- Response
 			} else {
 				logger.Debug("[BodyListenerTransmit] Failed to retrieve response channel")
